@@ -193,6 +193,21 @@ def run_module_case(case):
                 tr["args"][n] = absmodel.abs_type(get_type(absmodel.real_value(v), case["k"]))
     mod, path = load_module(case["funcs"])
     mod2 = path2 = None
+    if case.get("other"):      # a second module traced in the same session (its stub is not the one examined)
+        mod2, path2 = load_module(case["other"])
+
+    def subst(t, own, other):
+        """$OWN / $OTHER_OWN in a case's trace types: the class `Own` of the function's module / of the other module."""
+        if t is None:
+            return t
+        if t["k"] == "cls" and t["n"] in ("$OWN", "$OTHER_OWN"):
+            return T("cls", absmodel.TABLE.name((own if t["n"] == "$OWN" else other).Own))
+        return dict(t, a=[subst(x, own, other) for x in t["a"]], u=[subst(x, own, other) for x in t["u"]])
+    for fs, own, other in ((case["funcs"], mod, mod2), (case.get("other") or [], mod2, mod)):
+        for f in fs:
+            for tr in f.get("traces") or []:
+                tr["args"] = {n: subst(a, own, other) for n, a in tr["args"].items()}
+                tr["ret"], tr["yld"] = subst(tr.get("ret"), own, other), subst(tr.get("yld"), own, other)
     try:
         traces, lives = [], {}
 
@@ -211,8 +226,7 @@ def run_module_case(case):
                     out.append(CallTrace(lf, dict(recv_arg, **{n: rt(a) for n, a in tr["args"].items()}), rt(tr.get("ret")), rt(tr.get("yld"))))
             return out
         traces = traces_of(mod, case["funcs"], True)
-        if case.get("other"):      # a second module traced in the same session (its stub is not the one examined)
-            mod2, path2 = load_module(case["other"])
+        if case.get("other"):
             t2 = traces_of(mod2, case["other"], False)
             traces = t2 + traces if case.get("other_first") else traces + t2
         strategy = getattr(ExistingAnnotationStrategy, case["strategy"])
@@ -497,6 +511,12 @@ def gen_c13(tier, seed):
     return cases
 
 
+def subst_marker(t, old, new):
+    if t["k"] == "cls" and t["n"] == old:
+        return T("cls", new)
+    return dict(t, a=[subst_marker(x, old, new) for x in t["a"]], u=[subst_marker(x, old, new) for x in t["u"]])
+
+
 def gen_c11(tier, seed, env_text):
     rng = random.Random(seed)
     ctx = universe.export("MTRewriteExport", "ctx1", ["MTValues", "MTTypeUniverse"], env_text)
@@ -537,6 +557,24 @@ def gen_c11(tier, seed, env_text):
         fk, cont = [("module", ()), ("instance", ("Cls",))][n % 2]
         add(outer, INT, None, None, 3, "c11_typeddict_in_container_field", fk=fk, cont=cont)
         add(INT, outer, h(outer), None, 3, "c11_typeddict_in_container_field", fk=fk, cont=cont)
+    # a function WITHOUT parameters returning a class of its own module, next to functions that use the same class
+    # (same module, and another module traced in the same session), in both processing orders
+    OWN, OOWN = T("cls", "$OWN"), T("cls", "$OTHER_OWN")
+    p_a = [{"name": "a", "kind": "poskw", "default": None}]
+    for first in (False, True):
+        for use_ty in (OWN, T("list", "", [OWN]), T("union", "", [], [OWN, T("cls", "NoneType")])):
+            mk0 = {"name": "make", "container": [], "fkind": "module", "params": [], "traces": [{"args": {}, "ret": use_ty, "yld": None}]}
+            use = {"name": "use", "container": [], "fkind": "module", "params": p_a, "traces": [{"args": {"a": use_ty}, "ret": use_ty, "yld": None}]}
+            meth = {"name": "build", "container": ["Cls"], "fkind": "static", "params": [], "traces": [{"args": {}, "ret": use_ty, "yld": None}]}
+            cases.append({"funcs": [mk0, use, meth] if first else [use, meth, mk0], "strategy": "REPLICATE", "k": 0,
+                          "family": "c11_parameterless_function_returning_own_class"})
+            # the other module has the parameterless function; this module uses the other module's class
+            o_mk = {"name": "make", "container": [], "fkind": "module", "params": [],
+                    "traces": [{"args": {}, "ret": subst_marker(use_ty, "$OWN", "$OWN"), "yld": None}]}
+            use2 = {"name": "use", "container": [], "fkind": "module", "params": p_a,
+                    "traces": [{"args": {"a": subst_marker(use_ty, "$OWN", "$OTHER_OWN")}, "ret": None, "yld": None}]}
+            cases.append({"funcs": [use2], "other": [o_mk], "other_first": first, "strategy": "REPLICATE", "k": 0,
+                          "family": "c11_parameterless_function_returning_own_class"})
     # replicated source annotations that are strings / NewTypes / classes of other modules (no trace for that position)
     for ann in ("'Own'", "ExtId", "zutil.A", "Optional['Own']", "List[ExtId]"):
         f = {"name": "ann_" + str(abs(hash(ann)) % 1000), "container": [], "fkind": "module",
